@@ -159,6 +159,25 @@ theorem double_negation_refuted_legacy :
     (describeSt true (.not (.not (.equalTo (.int 1)))) Tr.plain).1 ≠ (describeSt true (.equalTo (.int 1)) Tr.plain).1 := by
   decide
 
+/-- **Clause invariance.**  The clause a matcher devotes to its sub-matcher ("… whose value <clause>",
+    "… that <clause>") is, verbatim, the sub-matcher's own sentence (conjugated, with its OWN polarity),
+    whatever the state of the transformer the parent was handed — so negating the parent (`not_(has_entry(k, m))`)
+    never changes, abbreviates or negates what is said about `m`. -/
+theorem clause_wording_independent_of_parent (m : M) (t : Tr) :
+    (∃ pre, (describeSt false (.hasItem m) t).1 = pre ++ (describeSt false m Tr.conj).1) ∧
+    (∃ pre, (describeSt false (.hasAllItems m) t).1 = pre ++ (describeSt false m Tr.conj).1) ∧
+    (∃ pre, (describeSt false (.hasLength m) t).1 = pre ++ (describeSt false m Tr.conj).1) ∧
+    (∀ p, ∃ pre, (describeSt false (.hasEntry p m) t).1 = pre ++ (describeSt false m Tr.conj).1) ∧
+    (∀ ty, ∃ pre, (describeSt false (.isType ty m) t).1 = pre ++ (describeSt false m Tr.conj).1) := by
+  simp only [describeSt_fixed, describe]
+  refine ⟨?_, ?_, ?_, fun p => ⟨_, rfl⟩, fun ty => ⟨_, rfl⟩⟩
+  · obtain ⟨pre, h⟩ := apply_keeps_suffix_have t (c!" an item whose value " ++ describe m Tr.conj)
+    exact ⟨pre ++ c!" an item whose value ", by rw [List.append_assoc]; exact h⟩
+  · obtain ⟨pre, h⟩ := apply_keeps_suffix_have t (c!" all items whose value " ++ describe m Tr.conj)
+    exact ⟨pre ++ c!" all items whose value ", by rw [List.append_assoc]; exact h⟩
+  · obtain ⟨pre, h⟩ := apply_keeps_suffix_have t (c!" a length that " ++ describe m Tr.conj)
+    exact ⟨pre ++ c!" a length that ", by rw [List.append_assoc]; exact h⟩
+
 /-- matchers whose own sentence begins with a verb the transformer rewrites: everything except the
     composites and overridden descriptions, looking through `not_` and `hide_result_details()` -/
 def verbal : M → Bool
